@@ -320,7 +320,7 @@ class SchedulingSolver(BaseModelWithJson):
                     asst = z3.ForAll(
                         x,
                         z3.If(
-                            x == t._start,
+                            z3.And(x == t._start, t._scheduled),
                             f(x) == -buffer._unloading_tasks[t],
                             f(x) == 0,
                         ),
@@ -338,7 +338,9 @@ class SchedulingSolver(BaseModelWithJson):
                     asst = z3.ForAll(
                         x,
                         z3.If(
-                            x == t._end, f(x) == +buffer._loading_tasks[t], f(x) == 0
+                            z3.And(x == t._end, t._scheduled),
+                            f(x) == +buffer._loading_tasks[t],
+                            f(x) == 0,
                         ),
                     )
                     self.append_z3_assertion(asst)
@@ -370,17 +372,20 @@ class SchedulingSolver(BaseModelWithJson):
                 buffer_mapping = z3.Array(
                     f"Buffer_{buffer.name}_mapping", z3.IntSort(), z3.IntSort()
                 )
+                # an optional task that is not scheduled does not change the level
                 for t in buffer._unloading_tasks:
+                    quantity = -buffer._unloading_tasks[t]
+                    if t.optional:
+                        quantity = z3.If(t._scheduled, quantity, 0)
                     self.append_z3_assertion(
-                        buffer_mapping
-                        == z3.Store(
-                            buffer_mapping, t._start, -buffer._unloading_tasks[t]
-                        )
+                        buffer_mapping == z3.Store(buffer_mapping, t._start, quantity)
                     )
                 for t in buffer._loading_tasks:
+                    quantity = +buffer._loading_tasks[t]
+                    if t.optional:
+                        quantity = z3.If(t._scheduled, quantity, 0)
                     self.append_z3_assertion(
-                        buffer_mapping
-                        == z3.Store(buffer_mapping, t._end, +buffer._loading_tasks[t])
+                        buffer_mapping == z3.Store(buffer_mapping, t._end, quantity)
                     )
                 # and, for the other, the buffer level i+1 is the buffer level i +/- the buffer change
                 for i in range(len(buffer._buffer_levels) - 1):
@@ -625,6 +630,16 @@ class SchedulingSolver(BaseModelWithJson):
             change_level_times = [
                 z3_sol[sct_z3_var].as_long()
                 for sct_z3_var in buffer._level_changes_time
+            ]
+            # optional tasks that are not scheduled are moved to a negative instant
+            # and do not change the level: they are not reported
+            level_values = [level_values[0]] + [
+                level
+                for level, instant in zip(level_values[1:], change_level_times)
+                if instant >= 0
+            ]
+            change_level_times = [
+                instant for instant in change_level_times if instant >= 0
             ]
             # need to fix the results if ever the buffer
             # has been loaded/unloaded by concurrent tasks
